@@ -588,6 +588,14 @@ func checkC04(c *Ctx, r *Report) {
 			r.ok("R4.5", "packet.Registers", fmt.Sprintf("none of the %d access paths (nor anything they call) writes through payload-derived memory or changes decoder state", len(roots)), "-", true)
 		}
 	}
+	// R4.6: the windows the accessors work on are the responses' whole payloads: every AsRegisters
+	// hands (payload field, request start address) to NewRegisters unchanged (C05 R5.2 plumbing)
+	{
+		tmp := newReport(r.Prop, r.Tier)
+		c05Plumbing(c, tmp)
+		r.instance("R4.6", copyItems(tmp, r, "R5.2", "R4.6", "NewRegisters receives"))
+		r.floor("R4.6", 3)
+	}
 	r.assumption("Registers values are only created by NewRegisters (its fields are unexported; checked: no other function of the package stores to startAddress/endAddress/data)")
 	r.assumption("slice lengths are below 2^31; int is 64 bits wide")
 	r.assumption("float decoding (math.Float32frombits) is exact; numerical identity of floats is not decided")
